@@ -37,6 +37,10 @@ TRUSTED = [
     "scipy.linalg.solve_discrete_lyapunov and numpy.linalg.eigvals are contracts: the recorded Lyapunov solution is "
     "checked against the model's companion system in exact arithmetic on every case, the reported eigenvalues against "
     "the exact characteristic polynomial of the model's companion matrix",
+    "what is reported about the spectrum: the reduction of the eigenvalue array to max_abs_eigenvalue and the stability test "
+    "are regenerated (typed: numpy.abs / numpy.max on complex / real arrays) into gen_max_abs_eigenvalue / gen_is_stable, "
+    "model/Spectral.v is defined in terms of them; the caching properties, _number_from_numpy and the RedVAR accessors must "
+    "have the modelled text (fail closed); the executable instance uses squared moduli over bigQ (order embedding proved)",
     "Dataslate construction (databox -> array, fallback of missing residuals to 0, array -> databox), the lag stacking, the "
     "mask, the prior dummy arrays, the companion matrices and the simulation loop are hand-modelled and tied by the "
     "correspondence (bit-exact for stacking / mask / OLS inputs, 1e-7 tolerance against exact rationals otherwise)",
@@ -65,7 +69,10 @@ MANIFEST = {
                   "i*n+v of the lag stack is lag i+1 of variable v; simulating any (A,B,c) with the residuals the model stores "
                   "reproduces the data (induction over periods on the companion recursion); (I - sum A_i) mean = c and the mean is "
                   "the rest point; the companion matrix acts as the stacked recursion and its eigenvectors are exactly the "
-                  "geometric lag stacks; autocovariances are blocks of T^j Omega with Gamma_0 = A Omega A' + Sigma.",
+                  "geometric lag stacks; autocovariances are blocks of T^j Omega with Gamma_0 = A Omega A' + Sigma; the reported "
+                  "maximum modulus is attained by an eigenvalue and bounds all of them (spectral radius, independent of the order "
+                  "of the eigenvalues) and the stability verdict is 'stable' iff every eigenvalue has modulus < 1, for every list of "
+                  "eigenvalues over any totally pre-ordered type of moduli.",
     "level_note": "Partial: numpy.linalg.solve, the Lyapunov solver and eigvals are contracts (hypotheses); rounding is outside "
                   "(tolerance tie); the dataslate plumbing, stacking loop and simulate_flat loop are tied by correspondence only. "
                   "Trusted: Coq kernel + vm_compute, Bignums, translator/redvar.py, harness. No axioms (all theorems closed).",
@@ -250,9 +257,35 @@ def prepare_target(spec, db, ynames, xnames):
     return work
 
 
+def warm_up(spec, model, span):
+    """spec["warm"]: the SAME model object has been estimated before on other data (the observations of the endogenous
+    variables shifted by a deterministic pattern) and its accessors have been read, so that whatever an estimation
+    caches (eigenvalues, maximum modulus, companion matrix) is populated when the estimation under test starts."""
+    if not spec.get("warm"):
+        return
+    data = {}
+    for idx, (nm, rows) in enumerate(spec["data"].items()):
+        if nm.startswith("y"):
+            data[nm] = [[(v + ((7 * t + 3 * idx) % 5 - 2)) if isinstance(v, (int, float)) else v for v in r]
+                        for t, r in enumerate(rows)]
+        else:
+            data[nm] = rows
+    db2 = build(dict(spec, data=data))[0]
+    kw = {"num_variants": spec["nv"]} if not (spec.get("nv_in_ctor") or spec["nv"] == 1) else {}
+    try:
+        with np.errstate(all="ignore"):
+            model.estimate(db2, span, **kw)
+            for get in (model.get_eigenvalues, model.get_max_abs_eigenvalue, model.get_stability, model.get_mean,
+                        model.get_companion_matrices):
+                get(unpack_singleton=False)
+    except Exception:  # noqa  (the earlier estimation is not the one under test)
+        pass
+
+
 def estimate(spec):
     """The whole call sequence of a spec through the public API: (db, span, model, estimate output)."""
     db, span, model, ynames, xnames = build(spec)
+    warm_up(spec, model, span)
     kw = estimate_kwargs(spec)
     target = prepare_target(spec, db, ynames, xnames)
     if target is not None:
@@ -263,7 +296,8 @@ def estimate(spec):
 def repro_text(spec) -> str:
     return ("import json; from harness import C18; spec = json.load(open(REPLAY))['failure']['input']['spec']; "
             "db, span, model, out = C18.estimate(spec); sim = model.simulate(out, span)   "
-            "# spec['pre'] = earlier estimations written into the target databox first")
+            "# spec['pre'] = earlier estimations written into the target databox first; spec['warm'] = the model object was "
+            "estimated on other data before (C18.warm_up)")
 
 
 # ====================================================================== implementation run with recorders
@@ -310,6 +344,7 @@ def run_impl(spec) -> dict:
     except Exception as e:  # noqa
         return {"error": _exc("build", e)}
     acc = acc_error = sim = sim_error = None
+    warm_up(spec, model, span)
     kw = estimate_kwargs(spec)
     try:
         target = prepare_target(spec, db, ynames, xnames)
@@ -330,12 +365,14 @@ def run_impl(spec) -> dict:
             return {"error": _exc("get_system_matrices", e)}
         try:
             with np.errstate(all="ignore"):
-                acc = {"mean": model.get_mean(unpack_singleton=False),
+                # the verdict and the maximum are read BEFORE the eigenvalues: whatever they cache is then not refreshed
+                # by a later accessor
+                acc = {"stable": model.get_stability(unpack_singleton=False),
+                       "maxabs": model.get_max_abs_eigenvalue(unpack_singleton=False),
+                       "mean": model.get_mean(unpack_singleton=False),
                        "eig": model.get_eigenvalues(unpack_singleton=False),
                        "acov": model.get_acov(up_to_order=2, unpack_singleton=False),
-                       "comp": model.get_companion_matrices(unpack_singleton=False),
-                       "maxabs": model.get_max_abs_eigenvalue(unpack_singleton=False),
-                       "stable": model.get_stability(unpack_singleton=False)}
+                       "comp": model.get_companion_matrices(unpack_singleton=False)}
             for key_ in ("mean", "eig", "acov", "comp", "maxabs", "stable"):
                 if len(acc[key_]) != nv:
                     raise RuntimeError(f"{len(acc[key_])} entries of {key_} for {nv} variants")
@@ -613,6 +650,8 @@ def property_checks(spec, res, first_only=False) -> list[Failure]:
     shape = f"n={n},m={m},order={p},intercept={spec['intercept']},dof={spec['dof']},priors={len(spec['priors'])}"
 
     tag = ":target_db" if uses_target(spec) else ""
+    if spec.get("warm"):
+        shape += ",model object estimated before on other data"
     if spec.get("pre"):
         shape += f",target_db after {len(spec['pre'])} earlier estimation(s) of order " + "/".join(str(st["p"]) for st in spec["pre"])
 
@@ -810,7 +849,8 @@ def correspondence(ctx) -> CorrResult:
                 "target databox that already holds the residuals of 1-2 earlier estimations with another order / intercept / "
                 "prior / sample); evaluation = one variant driven through "
                 "RedVAR(...).estimate, get_system_matrices/get_mean/get_eigenvalues/get_acov/get_companion_matrices, "
-                "simulate; 15 compared components each; non-trivial = the estimate succeeded; distinct = distinct spec text")
+                "get_max_abs_eigenvalue/get_stability, simulate; 17 compared components each (16: the model's spectral radius of "
+                "the reported eigenvalues, as exact (re, im) pairs, vs the reported maximum modulus; 17: the stability verdict); non-trivial = the estimate succeeded; distinct = distinct spec text")
     res.samples = [{"spec": {k_: v_ for k_, v_ in s.items() if k_ != "data"}, "variant": v,
                     "impl": None if o is None else {"A": o["A"].tolist(), "fitted": o["fitted"]}}
                    for s, v, o in items[:3]]
@@ -997,7 +1037,7 @@ def gen_from_roots(rng, noise_free=None) -> tuple[dict, np.ndarray, dict]:
     freq = rng.choice([1, 4, 12, 0])
     spec = {"n": n, "m": m, "p": p, "intercept": intercept, "dof": rng.random() < 0.5, "omit_missing": True, "nv": 1,
             "freq": freq, "start": rng.randint(*FREQ_START[freq]), "N": N, "data": data, "priors": [],
-            "interpret_span": "short", "nv_in_ctor": True}
+            "interpret_span": "short", "nv_in_ctor": True, "warm": rng.random() < 0.4}
     beta = np.hstack([A, B, c.reshape(n, 1)[:, :k]])
     meta = {"roots": [[z.real, z.imag] for z in roots], "rho": rho, "dominant": kind, "noise_free": bool(noise_free)}
     return spec, beta, meta
